@@ -1,11 +1,28 @@
 """What MANIFEST.json claims, per property (single source for tools_gen_manifest.py)."""
 
+T = "contract-based deductive verification (VCs from the Python AST of the real functions, z3/cvc5) + run-time contracts over a bounded domain as stand-in"
+
 CLAIMS = {
-    "C01": dict(category="other", engine="pyvc+rtc", technique="contract-based deductive verification (AST->z3 VCs on kernels/codes) + bounded run-time contract on groupby_reduce",
-                text="Proof obligations on the functions the eager path factors through; the end-to-end postcondition result == G(NumPy SPEC) is a bounded run-time contract over an enumerated domain, labelled bounded."),
-    "C02": dict(category="other", engine="pyvc+rtc", technique="contract-based deductive verification (homomorphism/tree/plan obligations) + bounded run-time contract chunked == eager",
-                text="Obligations on combine/tree/plan functions; end-to-end chunked == eager is a bounded run-time contract over all chunkings of short arrays."),
+    "C01": dict(category="other", technique=T, text="Obligations on the functions the eager path factors through (codes, kernels, dispatch); the end-to-end postcondition result == G(NumPy SPEC) is a bounded run-time contract on groupby_reduce over an enumerated domain, labelled bounded and not counted as proved."),
+    "C02": dict(category="other", technique=T, text="Obligations on combine / tree / plan functions; chunked == eager is a bounded run-time contract over chunkings of short arrays under every strategy and reindex mode."),
+    "C03": dict(category="other", technique=T, text="Tree-builder obligations (ordered partition refinement for every split_every and block count) and purity obligations; order/scheduler independence of whole graphs is a bounded stand-in with an in-check topological evaluator."),
+    "C04": dict(category="other", technique=T, text="Monoid-law obligations over the blueprints returned by the real _initialize_aggregation, for all values; execution of blueprints (incl. user-defined Aggregation objects) is a bounded stand-in over all splits of small multisets."),
+    "C05": dict(category="other", technique=T, text="Codes / mask / user-fill / reindex obligations; the slot-by-slot contract of groupby_reduce is a bounded stand-in."),
+    "C06": dict(category="other", technique=T, text="Block-order and global-index obligations on the tree builder and arg-reduction plumbing; end-to-end contract bounded over all chunkings of short arrays with ties and NaNs."),
+    "C07": dict(category="other", technique=T, text="pandas.cut-equivalence of the digitize branch and injectivity of the raveled tuple code as pointwise VCs over all reals; end-to-end contract bounded."),
+    "C08": dict(category="other", technique=T, text="Offset-label injectivity and axis bookkeeping obligations; slice independence of the whole call bounded against the 1-D call per slice."),
+    "C09": dict(category="other", technique=T, text="Tree / block-subset obligations proved; find_group_cohorts checked exhaustively up to a stated size (bounded, not proof) plus dependency-closure and provenance contracts on unexecuted graphs."),
+    "C10": dict(category="other", technique=T, text="Obligations on shortcuts / scan operator; the contract of groupby_scan (per-group NumPy scans, bfill = mirrored ffill) is a bounded stand-in over all chunkings."),
+    "C11": dict(category="other", technique="complete enumeration of the finite dtype configuration space of the real _initialize_aggregation against a table written from the property + bounded run-time contract for metadata", text="dtype table decided by complete enumeration (a loop-free harness over the full finite domain of numeric dtypes); announced-vs-computed dtype/shape/chunks/array type and bool/datetime round trips are a bounded run-time contract."),
+    "C12": dict(category="other", technique=T, text="Laziness use-site obligations on the real source; evaluation counting on enumerated API calls (groupby_reduce, groupby_scan, xarray_reduce) is a bounded stand-in."),
+    "C13": dict(category="other", technique=T, text="Frame (write-site) and purity obligations on functions reachable from graph callables; the instrumented executor (read-only inputs, re-execution, cloudpickle round trip) is a bounded stand-in."),
+    "C14": dict(category="other", technique=T, text="Frame, cache-purity and token-coverage obligations; histories and co-computation pairs are bounded stand-ins."),
+    "C15": dict(category="exploration", technique="bounded run-time contract against native xarray groupby (no contract within reach of the VC generator expresses the main claim)", text="Equivalence with xarray's own groupby is decided only by a bounded run-time contract over generated DataArrays/Datasets; helper obligations, where proved, do not carry the claim."),
+    "C16": dict(category="other", technique=T, text="Sort / permutation obligations; the sort contract of the whole call is a bounded stand-in over int/float/str labels and all strategies."),
+    "C17": dict(category="other", technique=T, text="Loop-invariant obligations on the real chunk-planning loops (positivity, sum, run-boundary alignment, forced labels); helpers' end-to-end postconditions bounded-exhaustive up to a stated size."),
+    "C18": dict(category="other", technique=T, text="Index-bound and interpolation obligations on the quantile kernel; end-to-end contract against numpy.quantile bounded."),
+    "C19": dict(category="other", technique=T, text="Decision-table, exception-type and call-site signature obligations on the validation layer; the argument-cell sweep is a bounded stand-in."),
+    "C20": dict(category="other", technique=T, text="Sentinel (infinity) and accumulation-dtype obligations on the kernels; numeric fidelity of the whole call bounded; 'floating-point accuracy' of var/std is outside the family and only compared numerically."),
 }
 
-_ALL = ["C%02d" % i for i in range(1, 21)]
-NOT_APPLICABLE = {p: "check not built yet (work in progress; see DESIGN.md §8 build order)" for p in _ALL if p not in CLAIMS}
+NOT_APPLICABLE = {}
